@@ -60,7 +60,11 @@ func (fr *Frame) get(v ssa.Value) Value {
 }
 
 func (p *Path) unsupported(format string, a ...interface{}) {
-	panic(pathAbort{"unsupported", fmt.Sprintf(format, a...)})
+	msg := fmt.Sprintf(format, a...)
+	if len(p.fnStack) > 0 {
+		msg += " [in " + p.fnStack[len(p.fnStack)-1].String() + "]"
+	}
+	panic(pathAbort{"unsupported", msg})
 }
 
 func (p *Path) goPanicStr(msg string) {
@@ -76,7 +80,8 @@ func (p *Path) callSSA(fn *ssa.Function, args []Value, env []Value, caller *Fram
 	if p.depth > 400 {
 		p.unsupported("call depth exceeded at %s", fn.String())
 	}
-	defer func() { p.depth-- }()
+	p.fnStack = append(p.fnStack, fn)
+	defer func() { p.depth--; p.fnStack = p.fnStack[:len(p.fnStack)-1] }()
 	fr := &Frame{p: p, fn: fn, env: make(map[ssa.Value]Value, 32), caller: caller}
 	for i, prm := range fn.Params {
 		fr.env[prm] = args[i]
